@@ -42,6 +42,7 @@ struct _thpool {
     pthread_cond_t notify;
     m_list_t *threads;              /* Always used behind a mutex */
     m_queue_t *tasks;               /* Always used behind a mutex */
+    uint8_t alive_threads;          /* Threads that did not leave thpool_thread() yet. Always used behind a mutex */
     atomic_uint running_tasks;
     m_thpool_flags flags;           /* Nobody writes this but us during thpool_new. No need to use an atomic */
 };
@@ -86,6 +87,14 @@ static void *thpool_thread(void *thpool) {
         pool->running_tasks--;
     }
     
+    /*
+     * Detached threads cannot be joined: tell wait_pool() we are leaving.
+     * Pool must not be touched anymore after lock is released.
+     */
+    pool->alive_threads--;
+    if (pool->flags & M_THPOOL_DETACHED) {
+        pthread_cond_broadcast(&(pool->notify));
+    }
     pthread_mutex_unlock(&(pool->lock));
     return NULL;
 }
@@ -99,7 +108,14 @@ static int wait_pool(m_thpool_t *pool, thpool_shutdown_t shutdown) {
     pool->shutdown = shutdown;
 
     /* Wake up all worker threads and unlock mutex */
-    ret = pthread_cond_broadcast(&pool->notify) + pthread_mutex_unlock(&pool->lock);
+    ret = pthread_cond_broadcast(&pool->notify);
+    if (pool->flags & M_THPOOL_DETACHED) {
+        /* Detached threads cannot be joined: wait until last one left */
+        while (ret == 0 && pool->alive_threads > 0) {
+            ret = pthread_cond_wait(&pool->notify, &pool->lock);
+        }
+    }
+    ret += pthread_mutex_unlock(&pool->lock);
     if (ret == 0) {
         if (!(pool->flags & M_THPOOL_DETACHED)) {
             /* Join all worker threads */
@@ -143,6 +159,8 @@ static int add_threads(m_thpool_t *pool, int num) {
         err = pthread_create(th, &tattr, thpool_thread, (void *) pool);
         if (err != 0) {
             m_list_remove(pool->threads, th);
+        } else {
+            pool->alive_threads++;
         }
     }
     pthread_attr_destroy(&tattr);
